@@ -10,12 +10,18 @@
 //! commitment transaction confirms `c1` blocks, an HTLC transaction `c2` blocks after it first
 //! reached a broadcaster; the adversary's competing spend wins ties).
 //!
-//! usage: deadlines --scripts FILE --out TRACE
+//! usage: deadlines --scripts FILE --out TRACE [--run-offset N]
 //! script (one JSON object per line):
 //!   {"role":"final"|"fwd", "offu":Eu-h, "offd":Ed-h, "d":cltv_expiry_delta of B,
 //!    "up":"honest"|"silent", "dn":"honest"|"silent"|"early"|"lastmoment"|"lastfail"|"onchain"|"hold",
 //!    "x":int (C acts when h = Ed + x), "claim":int|null (final: claim_funds at deadline+claim),
-//!    "c1":int, "c2":int, "wait":int (optional)}
+//!    "c1":int, "c2":int, "wait":int (optional),
+//!    "rsa":null|"gone"|"bcast", "rsk":int (optional: B is stopped and restarted from its persisted
+//!    ChannelManager + ChannelMonitors `rsk` blocks after the downstream HTLC became unclaimable on chain
+//!    ("gone": B's HTLC-less / dust commitment or its HTLC-timeout confirmed) / after B's commitment of the
+//!    downstream channel reached the broadcaster ("bcast"))}
+//! dn "dust": the forwarded amount is below the dust limit (no HTLC output in any commitment), C takes the
+//! HTLC and never answers.  c1 above MAX_BLOCKS_FOR_CONF = a miner that starves B's commitment transaction.
 //! The sender (A) builds the onion itself from the script: incoming expiry h + offu, outgoing expiry
 //! h + offd, whatever B advertises (h = the height at which B looks at the HTLC).  `wait` blocks are
 //! mined between A's commitment dance and B's decision (the HTLC was stuck upstream); an outgoing
@@ -33,6 +39,7 @@ use lightning::ln::types::ChannelId;
 use lightning::routing::router::{Path, PaymentParameters, Route, RouteHop, RouteParameters};
 use lightning::types::features::{ChannelFeatures, NodeFeatures};
 use lightning::types::payment::{PaymentHash, PaymentPreimage};
+use lightning::util::ser::Writeable;
 use serde_json::{json, Value};
 use std::collections::{HashMap, HashSet, VecDeque};
 use std::panic::{catch_unwind, AssertUnwindSafe};
@@ -50,6 +57,7 @@ enum Wire {
 	Fee(msgs::UpdateFee),
 	CS(Vec<msgs::CommitmentSigned>),
 	RAA(msgs::RevokeAndACK),
+	Reestablish(msgs::ChannelReestablish),
 	Error(msgs::ErrorMessage),
 	Other,
 }
@@ -61,6 +69,8 @@ struct MemTx {
 	kind: &'static str,
 	/// tip height at which it reached a broadcaster
 	seen: u32,
+	/// a commitment transaction with an output of exactly the forwarded HTLC's value
+	htlc: bool,
 }
 
 struct Net {
@@ -100,6 +110,12 @@ struct Net {
 	last_reason: String,
 	adversary: Option<usize>,
 	preimage: [u8; 32],
+	/// value of B's HTLC to C in satoshi
+	dn_amt_sat: u64,
+	/// height at which B's commitment of the downstream channel reached the broadcaster / at which the
+	/// downstream HTLC became unclaimable on chain
+	dn_bcast_h: Option<u32>,
+	dn_gone_h: Option<u32>,
 }
 
 fn leak<T>(t: T) -> &'static T {
@@ -180,6 +196,7 @@ impl Net {
 						}
 					},
 					MessageSendEvent::SendRevokeAndACK { node_id, msg } => self.enqueue(i, &node_id, Wire::RAA(msg)),
+					MessageSendEvent::SendChannelReestablish { node_id, msg } => self.enqueue(i, &node_id, Wire::Reestablish(msg)),
 					MessageSendEvent::HandleError { node_id, action } => match action {
 						ErrorAction::SendErrorMessage { msg } => self.enqueue(i, &node_id, Wire::Error(msg)),
 						ErrorAction::DisconnectPeer { msg: Some(msg) } => self.enqueue(i, &node_id, Wire::Error(msg)),
@@ -233,9 +250,12 @@ impl Net {
 			return;
 		}
 		let h = self.height.max(self.tip[node]);
-		self.ev(json!({"ev":"bcast","node":node,"chan":chan,"kind":kind,"h":h,"locktime":tx.lock_time.to_consensus_u32()}));
+		let amt = self.dn_amt_sat;
+		let htlc = kind == "commitment" && tx.output.iter().any(|o| o.value.to_sat() == amt);
+		self.ev(json!({"ev":"bcast","node":node,"chan":chan,"kind":kind,"h":h,"locktime":tx.lock_time.to_consensus_u32(),"htlc":htlc}));
+		if node == 1 && chan == "dn" && kind == "commitment" && self.dn_bcast_h.is_none() { self.dn_bcast_h = Some(h); }
 		let seen = self.height;
-		self.mempool.push(MemTx { tx, node, chan, kind, seen });
+		self.mempool.push(MemTx { tx, node, chan, kind, seen, htlc });
 	}
 
 	fn on_event(&mut self, i: usize, e: Event) {
@@ -316,6 +336,7 @@ impl Net {
 				if m.len() == 1 { n.handle_commitment_signed(from_pk, &m[0]) } else { n.handle_commitment_signed_batch_test(from_pk, &m) }
 			},
 			Wire::RAA(m) => n.handle_revoke_and_ack(from_pk, &m),
+			Wire::Reestablish(m) => n.handle_channel_reestablish(from_pk, &m),
 			Wire::Error(m) => n.handle_error(from_pk, &m),
 			Wire::Other => {},
 		}
@@ -403,7 +424,9 @@ impl Net {
 			self.confirmed.insert(m.tx.compute_txid());
 			self.conf_height.insert(m.tx.compute_txid(), newh);
 			txs.push(m.tx.clone());
-			conf.push(json!({"kind":m.kind,"node":m.node,"chan":m.chan}));
+			conf.push(json!({"kind":m.kind,"node":m.node,"chan":m.chan,"htlc":m.htlc}));
+			if m.node == 1 && m.chan == "dn" && self.dn_gone_h.is_none()
+				&& ((m.kind == "commitment" && !m.htlc) || m.kind == "htlc_timeout") { self.dn_gone_h = Some(newh); }
 			if m.kind == "htlc_success" && m.node == 2 { self.c_paid_onchain = true; }
 			taken.push(k);
 		}
@@ -431,6 +454,62 @@ impl Net {
 		for (h, txs) in hist {
 			self.give_block(i, h, &txs);
 			self.drain();
+		}
+	}
+
+	/// Stop B and start it again from what it has persisted at this moment: the ChannelManager and every
+	/// ChannelMonitor are written, read back (ChannelManager::read with the monitors), the monitors are
+	/// given to a fresh ChainMonitor and the connection to A is re-established.
+	fn restart_b(&mut self) {
+		let i = 1usize;
+		self.pump(&[0, 1]);
+		let h = self.height;
+		self.ev(json!({"ev":"restart","node":i,"h":h}));
+		let pk = self.nodes[i].node.get_our_node_id();
+		for j in 0..self.nodes.len() {
+			if j == i { continue; }
+			self.nodes[j].node.peer_disconnected(pk);
+			self.queues.remove(&(i, j));
+			self.queues.remove(&(j, i));
+		}
+		let mgr_bytes = self.nodes[i].node.encode();
+		let mut mons: Vec<Vec<u8>> = Vec::new();
+		for cid in self.nodes[i].chain_monitor.chain_monitor.list_monitors() {
+			mons.push(self.nodes[i].chain_monitor.chain_monitor.get_monitor(cid).unwrap().encode());
+		}
+		let cfg = self.nodes[i].node.get_current_config();
+		let persister: &'static lightning::util::test_utils::TestPersister = leak(lightning::util::test_utils::TestPersister::new());
+		let ncm: &'static lightning::util::test_utils::TestChainMonitor<'static> = leak(lightning::util::test_utils::TestChainMonitor::new(
+			Some(self.nodes[i].chain_source), self.nodes[i].tx_broadcaster, self.nodes[i].logger, self.nodes[i].fee_estimator,
+			persister, self.nodes[i].keys_manager));
+		self.nodes[i].chain_monitor = ncm;
+		let mon_refs: Vec<&[u8]> = mons.iter().map(|m| &m[..]).collect();
+		let new_mgr = leak(_reload_node(&self.nodes[i], cfg, &mgr_bytes, &mon_refs, None));
+		self.nodes[i].node = new_mgr;
+		self.nodes[i].onion_messenger.set_offers_handler(new_mgr);
+		self.nodes[i].onion_messenger.set_async_payments_handler(new_mgr);
+		self.nodes[i].chain_monitor.added_monitors.lock().unwrap().clear();
+		self.drain();
+		// A and B find each other again
+		let a_pk = self.nodes[0].node.get_our_node_id();
+		let init_b = msgs::Init { features: self.nodes[i].node.init_features(), networks: None, remote_network_address: None };
+		let init_a = msgs::Init { features: self.nodes[0].node.init_features(), networks: None, remote_network_address: None };
+		if !self.silent[0] {
+			let _ = self.nodes[0].node.peer_connected(pk, &init_b, true);
+			let _ = self.nodes[i].node.peer_connected(a_pk, &init_a, false);
+		}
+		self.pump(&[0, 1]);
+	}
+
+	/// restart B if the script asks for it at this point
+	fn maybe_restart(&mut self, rsa: &str, rsk: i64, done: &mut bool) {
+		if *done { return; }
+		let base = match rsa { "gone" => self.dn_gone_h, "bcast" => self.dn_bcast_h, _ => None };
+		if let Some(b) = base {
+			if self.height as i64 >= b as i64 + rsk {
+				*done = true;
+				self.restart_b();
+			}
 		}
 	}
 
@@ -479,6 +558,7 @@ fn build(n: usize, d: u16) -> Net {
 		history: Vec::new(), mempool: Vec::new(), spent: HashSet::new(), confirmed: HashSet::new(), conf_height: HashMap::new(), commit_txids: HashSet::new(),
 		log: Vec::new(), chan_ids, fundings, scids, c1: 1, c2: 1, a_sent: false, a_failed: false, c_claimed_event: false,
 		c_paid_onchain: false, dn_fulfilled: false, last_reason: String::new(), adversary: None, preimage: [0u8; 32],
+		dn_amt_sat: 0, dn_bcast_h: None, dn_gone_h: None,
 	}
 }
 
@@ -495,6 +575,9 @@ fn run_case(run: u64, s: &Value, net_out: &mut Option<Net>) {
 	let d = geti(s, "d", 48) as u16;
 	let x = geti(s, "x", 0);
 	let claim_rel = s["claim"].as_i64();
+	let rsa = s["rsa"].as_str().unwrap_or("").to_string();
+	let rsk = geti(s, "rsk", 0);
+	let mut restarted = false;
 	// blocks between the commitment of A's HTLC and B's decision; offu / offd are relative to the
 	// height at which B decides
 	let wait = if role == "fwd" && dn != "cell" { geti(s, "wait", 0).max(1 - offd).max(0) } else { 0 };
@@ -510,7 +593,9 @@ fn run_case(run: u64, s: &Value, net_out: &mut Option<Net>) {
 			"MINF":c.min_final_cltv_expiry_delta,"FAR":c.cltv_far_far_away}}));
 
 	// ---- the payment, with hand-chosen CLTVs
-	let amt = 3_000_000u64;
+	// "dust": below the dust limit of every commitment transaction (354 sat + the HTLC transaction's fee)
+	let amt = if dn == "dust" && role == "fwd" { 200_000u64 } else { 3_000_000u64 };
+	net.dn_amt_sat = amt / 1000;
 	let dst = n - 1;
 	let mut pre = [0u8; 32];
 	pre[..8].copy_from_slice(&run.to_be_bytes());
@@ -711,6 +796,7 @@ fn run_case(run: u64, s: &Value, net_out: &mut Option<Net>) {
 							break;
 						}
 						net.block(&[0, 1]);
+						net.maybe_restart(&rsa, rsk, &mut restarted);
 						if dn == "onchain" && !caught_up && net.log.iter().any(|e| e["ev"] == "block" && e["conf"].as_array().unwrap().iter().any(|c| c["kind"] == "commitment" && c["chan"] == "dn")) {
 							// C now looks at the chain and sweeps the HTLC with the preimage
 							caught_up = true;
@@ -738,11 +824,14 @@ fn main() {
 	let args: Vec<String> = std::env::args().collect();
 	let mut scripts_path = None;
 	let mut out = String::from("trace.ndjson");
+	// the check splits a batch over several processes: run numbers continue across them
+	let mut run_offset: u64 = 0;
 	let mut i = 1;
 	while i < args.len() {
 		match args[i].as_str() {
 			"--scripts" => { scripts_path = Some(args[i + 1].clone()); i += 1 },
 			"--out" => { out = args[i + 1].clone(); i += 1 },
+			"--run-offset" => { run_offset = args[i + 1].parse().unwrap(); i += 1 },
 			_ => {},
 		}
 		i += 1;
@@ -771,7 +860,7 @@ fn main() {
 	let mut tw = TraceWriter::create(&out);
 	let (mut panics, mut skipped, mut setup_fail) = (0usize, 0usize, 0usize);
 	for (k, s) in scripts.iter().enumerate() {
-		let run = k as u64 + 1;
+		let run = k as u64 + 1 + run_offset;
 		let mut net: Option<Net> = None;
 		let res = catch_unwind(AssertUnwindSafe(|| run_case(run, s, &mut net)));
 		let mut evs: Vec<Value> = match net.as_mut() { Some(n) => std::mem::take(&mut n.log), None => Vec::new() };
